@@ -341,3 +341,74 @@ package core
 //@     invariant forall pk string :: {i.refs[pk]} {t.Data[pk]} {pk in i.refs} pk in visited ==> ((pk in i.refs) <==> (IK(i, t, pk) != "")) && (pk in i.refs ==> i.refs[pk] == IK(i, t, pk))
 //@     invariant forall pk string :: {pk in i.refs} pk in i.refs ==> pk in visited
 //@     invariant content(t.AttributesDef) == old(content(t.AttributesDef))
+
+// ---- Query / Scan over the base table (C02, C04) -------------------------------------------------------------
+
+// Seq: the j-th primary key in iteration order
+//@ pred Seq(t *Table, fwd bool, j int) := (fwd ? t.SortedKeys[j] : t.SortedKeys[len(t.SortedKeys) - 1 - j])
+
+// KeyPart / MK: the verdict of Table.matchKey on the item stored under pk (key condition, filter, write condition)
+//@ pred KeyPart(t *Table, q QueryInput, pk string) :=
+//@   (q.KeyConditionExpression != "" ? matchSpec(t.Name, q.KeyConditionExpression, "key", dom(t.Data[pk]), vals(t.Data[pk]), dom(q.ExpressionAttributeValues), vals(q.ExpressionAttributeValues), dom(q.Aliases), vals(q.Aliases)) : q.Scan)
+//@ pred MK(t *Table, q QueryInput, pk string) :=
+//@   (q.ConditionExpression != nil && *q.ConditionExpression != "" ?
+//@       matchSpec(t.Name, *q.ConditionExpression, "conditional", dom(t.Data[pk]), vals(t.Data[pk]), dom(q.ExpressionAttributeValues), vals(q.ExpressionAttributeValues), dom(q.Aliases), vals(q.Aliases)) :
+//@       (q.FilterExpression != "" ?
+//@           (KeyPart(t, q, pk) && matchSpec(t.Name, q.FilterExpression, "filter", dom(t.Data[pk]), vals(t.Data[pk]), dom(q.ExpressionAttributeValues), vals(q.ExpressionAttributeValues), dom(q.Aliases), vals(q.Aliases))) :
+//@           KeyPart(t, q, pk)))
+// CountIt: does the item count towards Limit (shouldCountItem applied to matchKey's expression type and verdict)
+//@ pred CountIt(t *Table, q QueryInput, pk string) :=
+//@   (q.ConditionExpression != nil && *q.ConditionExpression != "" ? false :
+//@       (q.FilterExpression != "" ? true : (q.KeyConditionExpression != "" ? MK(t, q, pk) : true)))
+// StartKeyOf: the primary key string named by ExclusiveStartKey ("" when none is given)
+//@ pred StartKeyOf(t *Table, q QueryInput) := (len(q.ExclusiveStartKey) != 0 ? KeyOf(t, q.ExclusiveStartKey) : "")
+
+// InKey: is attribute a one of the key attributes of schema ks that item carries
+//@ pred InKey(ks keySchema, item map[string]*types.Item, a string) := (a == ks.HashKey || (ks.RangeKey != "" && a == ks.RangeKey)) && a in item
+
+//@ func (*keySchema).getKeyItem
+//@   requires ks != nil
+//@   ensures fresh(result) && result != nil
+//@   ensures forall a string :: {a in result} (a in result) == InKey(*ks, item, a)
+//@   ensures forall a string :: {result[a]} a in result ==> result[a] == item[a]
+
+//@ func (*Table).getLastKey
+//@   requires t != nil && (index != nil ==> allocated(index))
+//@   ensures fresh(result) && result != nil
+//@   ensures[C04] !(len(item) != 0 && limit != 0 && scanned <= keysSize && limit <= count) ==> len(result) == 0
+//@   ensures[C04] len(item) != 0 && limit != 0 && scanned <= keysSize && limit <= count ==>
+//@                forall a string :: {a in result} (a in result) == (InKey(t.KeySchema, item, a) || (index != nil && InKey(index.keySchema, item, a)))
+//@   ensures[C04] forall a string :: {result[a]} a in result ==> result[a] == item[a]
+//@   loop 1:
+//@     invariant fresh(key) && key != nil && fresh(iKey) && iKey != nil && key != iKey && index != nil
+//@     invariant forall a string :: {a in iKey} (a in iKey) == InKey(index.keySchema, item, a)
+//@     invariant forall a string :: {iKey[a]} a in iKey ==> iKey[a] == item[a]
+//@     invariant forall a string :: {a in key} (a in key) == (InKey(t.KeySchema, item, a) || a in visited)
+//@     invariant forall a string :: {key[a]} a in key ==> key[a] == item[a]
+
+//@ func (*Table).SearchData
+//@   maypanic
+//@   requires TInv0(t) && input.Index == ""
+//@   ghostcount cntS(j) := Seq(t, input.ScanIndexForward, j) == StartKeyOf(t, input)
+//@   ghostcount cntM(j) := (StartKeyOf(t, input) == "" || cntS(j) >= 1) && MK(t, input, Seq(t, input.ScanIndexForward, j))
+//@   ghostcount cntC(j) := (StartKeyOf(t, input) == "" || cntS(j) >= 1) && CountIt(t, input, Seq(t, input.ScanIndexForward, j))
+//@   ensures[C02,C04] 0 <= scanned && scanned <= len(t.SortedKeys)
+//@   ensures[C02,C04] len(result0) == cntM(scanned)
+//@   ensures[C02,C04] forall j int :: {cntM(j)} 0 <= j && j < scanned && old((StartKeyOf(t, input) == "" || cntS(j) >= 1) && MK(t, input, Seq(t, input.ScanIndexForward, j))) ==>
+//@                0 <= cntM(j) && cntM(j) < len(result0) && fresh(result0[cntM(j)]) && content(result0[cntM(j)]) == old(content(t.Data[Seq(t, input.ScanIndexForward, j)]))
+//@   ensures[C02] input.Limit == 0 ==> scanned == len(t.SortedKeys)
+//@   ensures[C04] input.Limit > 0 ==> cntC(scanned) <= input.Limit && (scanned < len(t.SortedKeys) ==> cntC(scanned) == input.Limit)
+//@   ensures[C04] input.Limit >= 0 && len(result1) != 0 ==> input.Limit > 0 && cntC(scanned) == input.Limit && scanned >= 1
+//@   ensures[C04] input.Limit >= 0 && len(result1) != 0 ==> forall a string :: {a in result1} (a in result1) == ((a == t.KeySchema.HashKey || (t.KeySchema.RangeKey != "" && a == t.KeySchema.RangeKey)) && a in old(t.Data[Seq(t, input.ScanIndexForward, scanned - 1)]))
+//@   ensures[C04] input.Limit >= 0 && len(result1) != 0 ==> forall a string :: {result1[a]} a in result1 ==> result1[a] == old(t.Data[Seq(t, input.ScanIndexForward, scanned - 1)][a])
+//@   ensures[C04] input.Limit > 0 && cntC(scanned) == input.Limit && scanned >= 1 && t.KeySchema.HashKey in old(t.Data[Seq(t, input.ScanIndexForward, scanned - 1)]) ==> len(result1) != 0
+//@   ensures[C08] dom(t.Data) == old(dom(t.Data)) && vals(t.Data) == old(vals(t.Data)) && t.SortedKeys == old(t.SortedKeys) && seq(t.SortedKeys) == old(seq(t.SortedKeys))
+//@   loop 1:
+//@     invariant TInv0(t) && sortedKeys == t.SortedKeys && sortedKeysSize == len(t.SortedKeys) && index == nil && forward == input.ScanIndexForward && limit == input.Limit
+//@     invariant startKey == old(StartKeyOf(t, input)) && fresh(arr(items)) && arr(items) != 0
+//@     invariant -1 <= rangeindex && rangeindex < len(sortedKeys) && scanned == rangeindex + 1
+//@     invariant input.started == (startKey == "" || cntS(rangeindex + 1) >= 1)
+//@     invariant len(items) == cntM(rangeindex + 1) && count == cntC(rangeindex + 1)
+//@     invariant limit > 0 ==> count < limit
+//@     invariant forall j int :: {cntM(j)} 0 <= j && j <= rangeindex && old((StartKeyOf(t, input) == "" || cntS(j) >= 1) && MK(t, input, Seq(t, input.ScanIndexForward, j))) ==>
+//@                0 <= cntM(j) && cntM(j) < len(items) && fresh(items[cntM(j)]) && content(items[cntM(j)]) == old(content(t.Data[Seq(t, input.ScanIndexForward, j)]))
